@@ -500,6 +500,13 @@ impl ISocket for DealerSocket {
     if !self.core.is_running() {
       return Err(ZmqError::InvalidState("Socket is closing".into()));
     }
+    // Frames of a message that recv() started to hand out one by one come first: the rest of that
+    // message is returned before anything newer.
+    if let Some(rest) = self.frame_recv_buffer.lock().take() {
+      if !rest.is_empty() {
+        return Ok(FrameBatch::from(Vec::from(rest)));
+      }
+    }
     let rcvtimeo_opt: Option<Duration> = self.core.core_state.read().options.rcvtimeo;
     let (_, batch) = self.ingress_engine.recv_logical_message(rcvtimeo_opt).await?;
     self.process_incoming_zmtp_message_for_dealer(0, batch)
